@@ -90,6 +90,7 @@ type Unit struct {
 	probes []modelProbe
 	usedLemmas map[string]bool
 	nonNil map[string]bool
+	bridge map[string]bool
 	concrete bool // ground evaluation: opaque spec functions are plain definitions
 	sched [][2]string // (k, err) result terms of calls on abstract streams
 }
